@@ -2,7 +2,7 @@
    Only statements; every proof is [exact <lemma>] or a closed computation on a witness. *)
 From Coq Require Import List ZArith Bool Arith.
 From KV Require Import Model.ConnMux Model.TransportPool
-  Proofs.ConnMuxBase Proofs.ConnMuxProofs Proofs.ConnMuxOwn Proofs.TransportPoolOwn.
+  Proofs.ConnMuxBase Proofs.ConnMuxProofs Proofs.ConnMuxOwn Proofs.TransportPoolProofs Proofs.TransportPoolOwn.
 Import ListNotations.
 Local Open Scope Z_scope.
 
@@ -94,6 +94,35 @@ Theorem C06_transport_own_response : forall ls s, prun pinit ls = Some s ->
 Proof. exact transport_own_response. Qed.
 Print Assumptions C06_transport_own_response.
 
+(* What the own-response theorem rests on, besides the correlation-id check: on one pooled
+   connection the ordinals of the requests sent are strictly increasing (newest first in
+   [bsent]) and lie in 1..nex — no id is ever used twice on a connection (the id on the wire
+   of ordinal k is wrap32 k).  Implementation-side monitor: mon_ids (harness op trlate). *)
+Theorem C06_pool_ids_increasing : forall ls s, prun pinit ls = Some s ->
+  forall c, Sorted.StronglySorted Z.gt (map fst (bsent (cn s c))) /\
+            Forall (fun k => 1 <= k <= nex (cn s c)) (map fst (bsent (cn s c))).
+Proof. exact pool_ids_increasing. Qed.
+Print Assumptions C06_pool_ids_increasing.
+
+(* The mechanism named by the property's anchors: a connection whose exchange failed (write
+   error, time-out / EOF / cut while reading, correlation-id mismatch) is CClosed at once
+   (pstep: CWrite _ false, CReadFail, CRead with a foreign id), and CClosed is final — the
+   connection never carries another request.  The own-response theorem does NOT need this
+   (the model's broker may inject stale frames anyway); the implementation is nevertheless
+   held to it by the monitor mon_fail (harness op trlate). *)
+Theorem C06_pool_failed_conn_final : forall ls s s' c,
+  PInv s -> (c < nconn s)%nat -> cst (cn s c) = CClosed -> prun s ls = Some s' ->
+  cst (cn s' c) = CClosed /\ bsent (cn s' c) = bsent (cn s c).
+Proof. exact pool_failed_conn_final. Qed.
+Print Assumptions C06_pool_failed_conn_final.
+
+Theorem C06_pool_failure_closes : forall s c,
+  (forall s', pstep s (CWrite c false) = Some s' -> cst (cn s' c) = CClosed) /\
+  (forall s', pstep s (CReadFail c) = Some s' -> cst (cn s' c) = CClosed) /\
+  (forall s', pstep s (CRead c) = Some s' -> cst (cn s' c) = CClosed \/ lastok (cn s' c) = true).
+Proof. exact failing_steps_close. Qed.
+Print Assumptions C06_pool_failure_closes.
+
 (* ======================= non-vacuity ======================= *)
 
 (* two calls, answers in reverse order, one yields the read lock, both complete with their
@@ -132,6 +161,22 @@ Proof. vm_compute. reflexivity. Qed.
 Example conn_apiversions_no_garbage :
   run init [Enter 1 KApiVersions; LockW 1; Send 1 true true; Arrive 1; LockR 1; PeekOwn 1;
             Deadline 1; Enter 2 KDo; LockW 2; Send 2 true true]%nat = None.
+Proof. vm_compute. reflexivity. Qed.
+
+(* the monitors on the journal of the seeded two-site change (conn kept after a time-out, id
+   reused): request 0 and request 1 both carry id 4 on conn 0, call 1 gets call 0's answer *)
+Example monitors_reject_stale_reuse :
+  let reqs := [mkJreq 0 3 None; mkJreq 0 4 (Some 0%nat); mkJreq 0 4 (Some 1%nat)] in
+  let anss := [mkJans 0 4 0; mkJans 0 4 1] in
+  let res := [mkJres 3 None; mkJres 1 (Some 0%nat)] in
+  (mon_ids reqs, mon_fail res reqs, mon_delivery res anss) = (false, false, false).
+Proof. vm_compute. reflexivity. Qed.
+
+Example monitors_accept_clean_run :
+  let reqs := [mkJreq 0 3 None; mkJreq 0 4 (Some 0%nat); mkJreq 2 2 (Some 1%nat); mkJreq 2 3 (Some 2%nat)] in
+  let anss := [mkJans 2 2 1; mkJans 2 3 2] in
+  let res := [mkJres 3 None; mkJres 1 (Some 1%nat); mkJres 1 (Some 2%nat)] in
+  (mon_ids reqs, mon_fail res reqs, mon_delivery res anss) = (true, true, true).
 Proof. vm_compute. reflexivity. Qed.
 
 (* transport: a cancelled call's answer is consumed by the run loop before the connection is
